@@ -106,12 +106,34 @@ def read_index(root):
         rows = conn.execute("SELECT task_identifier, timestamp, git_commit_hash, has_uncommitted_changes "
                             "FROM version_index ORDER BY task_identifier, timestamp").fetchall()
     except sqlite3.Error:
-        rows = None
+        # a format-1 index (v0.4.0 and older): no dirty flag, the commit column is NOT NULL ('' when there was none)
+        try:
+            rows = [(r[0], r[1], r[2] or None, 0) for r in conn.execute(
+                "SELECT task_identifier, timestamp, git_commit FROM version_index ORDER BY task_identifier, timestamp")]
+        except sqlite3.Error:
+            rows = None
     finally:
         conn.close()
     if rows is None:
         return None
     return [{"task": r[0], "ts": r[1], "commit": r[2], "dirty": bool(r[3])} for r in rows]
+
+
+def downgrade_index(root):
+    """Rewrite the project's version index in format 1 (as written by Conductor <= 0.4.0): same versions, commit '' when unknown."""
+    path = os.path.join(root, "cond-out", "version_index.sqlite")
+    rows = read_index(root) or []
+    os.makedirs(os.path.dirname(path), exist_ok=True)
+    if os.path.exists(path):
+        os.unlink(path)
+    conn = sqlite3.connect(path)
+    conn.execute("PRAGMA user_version = 1")
+    conn.execute("CREATE TABLE version_index (task_identifier TEXT NOT NULL, timestamp INTEGER NOT NULL, git_commit TEXT NOT NULL, "
+                 "PRIMARY KEY (task_identifier, timestamp))")
+    for r in rows:
+        conn.execute("INSERT INTO version_index VALUES (?,?,?)", (r["task"], r["ts"], r["commit"] or ""))
+    conn.commit()
+    conn.close()
 
 
 GIT_ENV = {
